@@ -180,13 +180,14 @@ def add_columns(fw: str, data: Any, new: Dict[str, List[int]]) -> Any:
                 data = data.append_column(c, pa.array(v[: data.num_rows] + [0] * max(0, data.num_rows - len(v))))
         return data
     if fw == "pandas":
-        data = data.copy()
+        if not CUR.get("inplace"):
+            data = data.copy()
         for c, v in new.items():
             data[c] = (v + [0] * len(data))[: len(data)]
         return data
     out = []
     for i, row in enumerate(data):
-        r = dict(row)
+        r = row if CUR.get("inplace") else dict(row)
         for c, v in new.items():
             r[c] = v[i] if i < len(v) else 0
         out.append(r)
@@ -297,6 +298,10 @@ def run_case(U: dict, C: dict, req: List[str], ordering: Optional[str], mode: st
     _GID.clear()
     _GID.update({c: g for g, c in classes.items()})
     CUR["fw"] = fw
+    # half of the cases (decided by the case itself) compute IN PLACE on pandas frames / python-dict rows, like the built-in groups:
+    # a result table that aliases the object's data would then show columns computed later
+    import zlib
+    CUR["inplace"] = bool(zlib.crc32(json.dumps([req, ordering, mode]).encode()) & 1)
     install()
     links = None
     if C.get("links") is not None:
@@ -308,7 +313,7 @@ def run_case(U: dict, C: dict, req: List[str], ordering: Optional[str], mode: st
         for name in C["filters"]:
             gf.add_filter(name, "min", {"value": -1000})
     REC.reset()
-    out: Dict[str, Any] = {"req": req, "ordering": ordering, "mode": mode}
+    out: Dict[str, Any] = {"req": req, "ordering": ordering, "mode": mode, "inplace": CUR["inplace"]}
     kw: Dict[str, Any] = {}
     sink = None
     if mode != "SYNC":
